@@ -129,7 +129,7 @@ func addDecimals(receiver object.Object, objType object.ObjectType, args ...obje
 			return nil, errors.New(msg)
 		}
 
-		decimals = int(decimalArg.Value)
+		decimals = max(int(decimalArg.Value), 0)
 	}
 
 	zeros := strings.Repeat("0", decimals)
